@@ -271,7 +271,10 @@ func c06One(l *LabCtx) {
 		// same number, two spellings
 		pool[1] = "00" + pool[0]
 	}
-	powClass := r.Pick(5)
+	powClass := r.Pick(6)
+	if powClass == 5 && method == "mode" {
+		powClass = 4
+	}
 	rs := make([]oracletypes.MicroReport, n)
 	for i := 0; i < n; i++ {
 		var p uint64
@@ -284,6 +287,12 @@ func c06One(l *LabCtx) {
 			p = 1000 // all equal
 		case 3:
 			p = uint64(1 + r.Pick(5000))
+		case 5:
+			// total power between 2^62 and 2^63 ("powers up to beyond the total token supply, total below 2^63")
+			p = (uint64(1)<<62 + uint64(r.Int63n(1<<62-1000))) / uint64(n)
+			if i == 0 {
+				p += uint64(n) // the integer division above may leave the sum just below 2^62
+			}
 		default:
 			if method == "mode" {
 				p = uint64(1 + r.Pick(200_000/n+1)) // the implementation loops power times
@@ -302,7 +311,7 @@ func c06One(l *LabCtx) {
 		for _, x := range rs[1:] {
 			rest += x.Power
 		}
-		if rest < 1<<61 && (method != "mode" || rest < 300_000) {
+		if rest < 1<<61 && powClass != 5 && (method != "mode" || rest < 300_000) {
 			rs[0].Power = rest
 		}
 	}
